@@ -11,7 +11,7 @@ import math
 import numpy as np
 
 from ..core import import_library
-from ..probe import Probe, Reach
+from ..probe import Probe, Reach, plain_function
 from ..ref import formula as F
 
 WORKERS = {"quick": 1, "thorough": 16}
@@ -223,7 +223,7 @@ def run(ctx):
         "exact comparison with a 1e-12 relative fall-back; min/max with a NaN operand and round on an exact half are unspecified: skipped and counted",
         "literals are non-negative decimals on the 3-decimals grid (the grammar has no literal sign; Node.postfix prints constants with the configured decimals)",
     ]
-    funcs = {"Function.parse": fl.Function.__dict__["parse"].__func__, "Function.infix_to_postfix": fl.Function.__dict__["infix_to_postfix"].__func__, "Function.format_infix": fl.Function.__dict__["format_infix"].__func__, "Function.Node.evaluate": fl.Function.Node.evaluate, "Function.membership": fl.Function.membership}
+    funcs = {"Function.parse": plain_function(fl.Function, "parse"), "Function.infix_to_postfix": plain_function(fl.Function, "infix_to_postfix"), "Function.format_infix": plain_function(fl.Function, "format_infix"), "Function.Node.evaluate": fl.Function.Node.evaluate, "Function.membership": fl.Function.membership}
     with Reach(funcs) as reach, Probe() as probe:
         mon = FormulaMonitor(ctx, fl)
         mon.install(probe)
